@@ -46,6 +46,30 @@ class DerivedProfile(StoreProfile):
             if extra:
                 return extra[0]
         base = rng.choice(ents)
+        if rng.random() < 0.06:
+            # in a new process: a search with ',' alternatives at a closed level (or an alias), then the Sids of each
+            # alternative alone (exists / children / siblings unfold the plain search for the first time)
+            segs = base.split("/")
+            tnb = m.natural_type(base)
+            cands = []
+            if tnb:
+                kb = m.by_name[tnb].keys
+                for j in range(1, len(segs)):
+                    v = m.vocab(tnb, kb[j])
+                    if v[0] == "closed":
+                        others = [x for x in v[1] if x != segs[j] and x not in m.alias][:2]
+                        if others:
+                            cands.append((j, [segs[j]] + others))
+            if cands:
+                j, alts = rng.choice(cands)
+                tail = ["*"] if j < len(segs) - 1 else []
+                s_or = "/".join(segs[:j] + [",".join(alts)] + tail)
+                q += [{"op": "five", "s": s_or, "party": rng.choice(["L:" + m.default_config, "A", "P:" + m.default_config]),
+                       "feats": ["comma", "episode"]}]
+                for a in alts:
+                    q.append({"op": "sid", "sid": "/".join(segs[:j] + [a])})
+                run.probes["alternatives_then_each_sid_alone"] += 1
+                return {"op": "restart"}
         if run.params.get("crowd") and r < 0.45:
             from .base import CROWD_NAMES
             cs = set(CROWD_NAMES)
